@@ -75,11 +75,20 @@ func SeqOracleC03(r *SeqRun) []explore.Violation {
 	sort.Slice(keys, func(i, j int) bool { return keys[i].req < keys[j].req })
 	for _, k := range keys {
 		ts := term[k]
+		kind := ""
+		if c := sent[k]; c.Type == 1 && c.TimeoutFlag&tfAck != 0 {
+			kind = "/ack-required-lock"
+			if c.Flag&0x02 != 0 {
+				kind = "/ack-required-update"
+			} else if len(ts) > 0 && ts[0].LRCount > 1 {
+				kind = "/ack-required-relock"
+			}
+		}
 		if len(ts) == 0 {
-			vs = append(vs, explore.Violation{Sig: "C03:no-terminal-reply", Msg: fmt.Sprintf("request %s of client %s never got a terminal reply although the engine was drained", sent[k].String(), k.client)})
+			vs = append(vs, explore.Violation{Sig: "C03:no-terminal-reply" + kind, Msg: fmt.Sprintf("request %s of client %s never got a terminal reply although the engine was drained", sent[k].String(), k.client)})
 		}
 		if len(ts) > 1 {
-			vs = append(vs, explore.Violation{Sig: "C03:duplicate-terminal-reply", Msg: fmt.Sprintf("request %s of client %s got %d terminal replies: %s", sent[k].String(), k.client, len(ts), evStr(ts))})
+			vs = append(vs, explore.Violation{Sig: "C03:duplicate-terminal-reply" + kind, Msg: fmt.Sprintf("request %s of client %s got %d terminal replies: %s", sent[k].String(), k.client, len(ts), evStr(ts))})
 		}
 		if expr[k] > 1 {
 			vs = append(vs, explore.Violation{Sig: "C03:duplicate-expried", Msg: fmt.Sprintf("request %s of client %s drew %d EXPRIED notices", sent[k].String(), k.client, expr[k])})
@@ -402,6 +411,16 @@ var commonAssumptions = []string{
 	"in-memory client connections (MemWaiterServerProtocol result callback); wire-level connections are covered by the C13/C18/C19 harness",
 }
 
+func c03AckAlphabet() []SeqOp {
+	return []SeqOp{
+		op(0, withEF(L(0, 1, 1, 0, 30, 0, 2), efZeroAof)),          // persisted at once, no acknowledgement asked
+		op(0, withTF(L(0, 1, 1, 2, 30, 0, 2), tfAck)),              // first lock or re-entrant lock
+		op(0, withF(withTF(L(0, 1, 1, 2, 40, 0, 2), tfAck), 0x02)), // update of the hold's terms
+		op(1, withTF(L(0, 1, 2, 2, 30, 1, 0), tfAck)),              // another LockId (waits behind id 1)
+		op(0, withTF(L(0, 2, 3, 2, 0, 0, 0), tfAck)),               // expiry 0: nothing is held
+		op(0, U(0, 1, 1)), op(1, U(0, 1, 2)), tick(3 * sec)}
+}
+
 func init() {
 	comboCheck(comboDef{id: "C03", level: "exploration",
 		sched: func(q bool) *SchedPlan {
@@ -426,6 +445,11 @@ func init() {
 				// a connection's command pool is not part of the canonical state), compared reply by reply and
 				// state by state with the in-memory execution
 				{Name: "binary-connection-histories", Cfg: cfg, Depth: d - 1, Drain: true, Full: true, NoDedupe: true, MaxStates: 400000, Alphabet: c03ConnAlphabet()},
+				// acknowledgement-required requests on fresh and on established (persisted) holds: first locks, re-entrant
+				// locks and updates; the node has no followers (its own log write is the only acknowledgement), or every
+				// database waits for one follower acknowledgement that never comes
+				{Name: "ack-required-requests", Cfg: cfg, Depth: d, Drain: true, DrainFor: 70 * sec, MaxStates: 400000, Alphabet: c03AckAlphabet()},
+				{Name: "ack-required-requests-unacknowledged", Cfg: hapi.Config{FastKeys: 1, Concurrent: 1, MissingAcks: 1}, Depth: d, Drain: true, DrainFor: 70 * sec, MaxStates: 400000, Alphabet: c03AckAlphabet()},
 			}, Oracles: []SeqOracle{SeqOracleC03, OracleFullVsMem("C03")}}
 		},
 		enum: func(q bool) []*EnumPlan {
